@@ -406,6 +406,10 @@ class Interp:
                 items = [Q.seq_get(v, i) for i in range(n)]
             elif v is None:
                 raise PyRaise(SExc(TypeError, ("cannot unpack non-iterable NoneType object",)))
+            elif isinstance(v, SOpaque) and hasattr(__import__("pyvc.api", fromlist=["PROTOCOLS"]).PROTOCOLS.get(v.kind), "unpack"):
+                # an opaque individual its protocol can take apart (`unpack(ip, st, obj, n)` -> n items, raising the
+                # ValueError / TypeError CPython raises when it is not a sequence of exactly n items)
+                items = __import__("pyvc.api", fromlist=["PROTOCOLS"]).PROTOCOLS[v.kind].unpack(self, st, v, n)
             else:
                 raise Unsupported(f"unpack of {type(v).__name__}")
             for e, x in zip(t.elts, items):
@@ -871,6 +875,14 @@ class Interp:
             return tuple(it)
         if isinstance(it, ModelObj):
             return it.py_iter(self, st)
+        if isinstance(it, SOpaque):
+            # an opaque individual that its protocol knows how to iterate (`iter(ip, st, obj)` -> a sequence value),
+            # e.g. a node of an algebraic data type whose children are individuals of the same kind
+            from .api import PROTOCOLS as _P
+
+            p = _P.get(it.kind)
+            if p is not None and hasattr(p, "iter"):
+                return p.iter(self, st, it)
         if isinstance(it, DRef):
             return tuple(it.d.keys())
         if isinstance(it, dict):
